@@ -187,10 +187,47 @@ SNIPS = [
     " pre [[File:Pic.png]] text ''x [[File:Pic2.png]] y'' end",
     "<div style=\"overflow:auto; height:50%\">pct</div>",
     "{| style=\"overflow:auto; height:80%\"\n| pc1 || pc2\n|}",
+    "<ul style=\"overflow:auto;height:200px\"><li>scroll li</li><li>two</li></ul>",
+    "<ol style=\"overflow:auto;height:300px\"><li>scroll ol</li></ol>",
+    "<dl style=\"overflow:auto;height:300px\"><dt>st</dt><dd>sd</dd></dl>",
+    "[[File:Pic.png|thumb|" + "long caption words <br/> " * 40 + "end]]",
+    "{|\n|\n{|\n| " + " || ".join("n%d" % i for i in range(1, 18)) + "\n|}\n|}",
+    "{|\n| left\n|\n== big section ==\n" + "bigsection " * 200 + "\n|}",
+    "<ref>[http://example.org/a first label] and [http://example.org/a second label] http://example.org/a</ref>",
+    "{| class=\"infobox\"\n| ib1 || ib2\n|}",
     "<li>stray li</li>",
     "<td>stray td</td>",
     "<caption>stray cap</caption>",
 ]
+
+# HTML nesting product (WikiDoc.tla Nest): host( container( child ) )
+NEST_CONT = [("''", "''"), (", "), ("<i>", "</i>"), ("<b>", "</b>"), ("<u>", "</u>"), ("<em>", "</em>"),
+             ("<strong>", "</strong>"), ("<span>", "</span>"), ("<small>", "</small>"), ("<big>", "</big>"), ("<sup>", "</sup>"),
+             ("<sub>", "</sub>"), ("<font color=\"red\">", "</font>"), ("<s>", "</s>"), ("<tt>", "</tt>")]
+NEST_BLK = ["<center>x y</center>", "<div>x y</div>", "<p>x y</p>", "<blockquote>x y</blockquote>",
+            "<table><tr><td>x</td><td>y</td></tr></table>", "<ul><li>x</li><li>y</li></ul>", "<ol><li>x</li></ol>",
+            "<dl><dt>x</dt><dd>y</dd></dl>", "<pre>x\ny</pre>", "<br/>", "<hr/>",
+            "\n{|\n| x || y\n|}\n", "\n* x\n* y\n", "\n# x\n", "\n; x\n: y\n", "\n x y\n", "\n----\n",
+            "<gallery>\nFile:Pic.png|x\n</gallery>", "[[File:Pic.png|thumb|x y]]", "<h2>x</h2>", "<ref>x y</ref>", "<math>x</math>"]
+NEST_HOST = ["<ul{A}><li>a {X} b</li></ul>", "<ol{A}><li>{X}</li></ol>", "<table{A}><tr><td>a {X} b</td></tr></table>",
+             "<table><tr><th{A}>{X}</th></tr></table>", "<dl{A}><dd>a {X} b</dd></dl>", "<dl><dt{A}>{X}</dt></dl>",
+             "<table{A}><caption>a {X} b</caption><tr><td>c</td></tr></table>", "* a {X} b", "{|{A}\n| a {X} b\n|}",
+             "w<ref>a {X} b</ref>", "<gallery>\nFile:Pic.png|a {X} b\n</gallery>", "a {X} b", "<div{A}>a {X} b</div>",
+             "<center{A}>{X}</center>", "<blockquote{A}>a {X} b</blockquote>", "; a {X} b", ": {X}", "== a {X} b ==",
+             "{|\n|+ a {X} b\n|-\n| c\n|}"]
+
+
+def nest_text(code, attr):
+    p = code % 3
+    code //= 3
+    c = code % len(NEST_CONT)
+    code //= len(NEST_CONT)
+    b = code % len(NEST_BLK)
+    h = (code // len(NEST_BLK)) % len(NEST_HOST)
+    blk = NEST_BLK[b]
+    inner = blk if p == 0 else (blk + " tail") if p == 1 else ("head " + blk)
+    return NEST_HOST[h].replace("{A}", _attr(attr)).replace("{X}", NEST_CONT[c][0] + inner + NEST_CONT[c][1])
+
 
 # free lexemes (malformed markup); used unless spec/WikiTokens.tla's emitted strings are supplied
 LEXEMES = [
@@ -296,6 +333,8 @@ def concretise(doc, lexemes=None):
             o.append("<span%s>" % _attr(a))
         elif t == "xc":
             o.append("</span>")
+        elif t == "nest":
+            o.append(nest_text(a, b))
         elif t == "snip":
             o.append(SNIPS[(a - 1) % len(SNIPS)])
         elif t == "lex":
